@@ -24,7 +24,7 @@ package requestf
 //@   let allocbudget = len(readBuf.buf.src)
 //@   witness src = readBuf.buf.src
 //@   witness i = readBuf.buf.i
-//@   modifies *st, readBuf.buf.i, readBuf.depth
+//@   modifies *st, readBuf.rderr, readBuf.buf.i, readBuf.depth
 //@   allocates
 //@   opaque [C03] *
 //@   ensures [C05] readBuf.buf.i >= p0
@@ -47,9 +47,35 @@ package requestf
 //@   ensures [C03] (ok6 && err == nil) ==> st.SFuncName == decStrV(src, q5, 6, d0)
 //@   ensures [C05] validR(readBuf)
 //@   loop 0 invariant [C05] validR(readBuf) && readBuf.buf.i >= p0 && len(st.SBuffer) == length
+//@   loop 0 invariant [C06] !readBuf.rderr
 //@   loop 1 invariant [C05] validR(readBuf) && readBuf.buf.i >= p0 && st.Context != nil
+//@   loop 1 invariant [C06] !readBuf.rderr
 //@   loop 2 invariant [C05] validR(readBuf) && readBuf.buf.i >= p0 && st.Status != nil
-// tag skeleton of the reader (derived from RequestF.tars by tools/gencontracts.py: reader_skeleton)
+//@   loop 2 invariant [C06] !readBuf.rderr
+// tag skeleton of the reader and error propagation (derived from RequestF.tars by tools/gencontracts.py: reader_skeleton)
+//@   site ResetDefault#0 ghost readBuf.rderr = false
+//@   site ).Read#0 ghostafter readBuf.rderr = readBuf.rderr || $ret != nil
+//@   site ).Read#1 ghostafter readBuf.rderr = readBuf.rderr || $ret != nil
+//@   site ).Read#2 ghostafter readBuf.rderr = readBuf.rderr || $ret != nil
+//@   site ).Read#3 ghostafter readBuf.rderr = readBuf.rderr || $ret != nil
+//@   site ).Read#4 ghostafter readBuf.rderr = readBuf.rderr || $ret != nil
+//@   site ).Read#5 ghostafter readBuf.rderr = readBuf.rderr || $ret != nil
+//@   site ).Read#6 ghostafter readBuf.rderr = readBuf.rderr || $ret != nil
+//@   site ).Read#7 ghostafter readBuf.rderr = readBuf.rderr || $ret != nil
+//@   site ).Read#8 ghostafter readBuf.rderr = readBuf.rderr || $ret != nil
+//@   site ).Read#9 ghostafter readBuf.rderr = readBuf.rderr || $ret != nil
+//@   site ).Read#10 ghostafter readBuf.rderr = readBuf.rderr || $ret != nil
+//@   site ).Read#11 ghostafter readBuf.rderr = readBuf.rderr || $ret != nil
+//@   site ).Read#12 ghostafter readBuf.rderr = readBuf.rderr || $ret != nil
+//@   site ).Read#13 ghostafter readBuf.rderr = readBuf.rderr || $ret != nil
+//@   site ).Read#14 ghostafter readBuf.rderr = readBuf.rderr || $ret != nil
+//@   site ).Read#15 ghostafter readBuf.rderr = readBuf.rderr || $ret != nil
+//@   site ).Read#16 ghostafter readBuf.rderr = readBuf.rderr || $ret != nil
+//@   site ).Skip#0 ghostafter readBuf.rderr = readBuf.rderr || $ret2 != nil
+//@   site ).Skip#1 ghostafter readBuf.rderr = readBuf.rderr || $ret1 != nil
+//@   site ).Skip#2 ghostafter readBuf.rderr = readBuf.rderr || $ret1 != nil
+//@   site ).Skip#3 ghostafter readBuf.rderr = readBuf.rderr || $ret1 != nil
+//@   ensures [C06] readBuf.rderr ==> err != nil
 //@   site ).Read#0 assert [C04] $2 == 1 && $3 == true
 //@   site ).Read#1 assert [C04] $2 == 2 && $3 == true
 //@   site ).Read#2 assert [C04] $2 == 3 && $3 == true
@@ -78,9 +104,10 @@ package requestf
 //@   requires st != nil && validR(readBuf)
 //@   let p0 = readBuf.buf.i
 //@   let allocbudget = len(readBuf.buf.src)
-//@   modifies *st, readBuf.buf.i, readBuf.depth
+//@   modifies *st, readBuf.rderr, readBuf.buf.i, readBuf.depth
 //@   allocates
-//@   ensures readBuf.buf.i >= p0
+//@   ensures [C05] readBuf.buf.i >= p0
+//@   ensures [C06] (readBuf.rderr && !old(readBuf.rderr)) ==> result != nil
 //@   safety [C05]
 //
 // ------------------------------------------------------------------ ResponsePacket
@@ -99,7 +126,7 @@ package requestf
 //@   let allocbudget = len(readBuf.buf.src)
 //@   witness src = readBuf.buf.src
 //@   witness i = readBuf.buf.i
-//@   modifies *st, readBuf.buf.i, readBuf.depth
+//@   modifies *st, readBuf.rderr, readBuf.buf.i, readBuf.depth
 //@   allocates
 //@   opaque [C03] *
 //@   ensures [C05] readBuf.buf.i >= p0
@@ -119,9 +146,34 @@ package requestf
 //@   ensures [C03] (ok5 && err == nil) ==> st.IRet == decIntV(src, q4, 5, d0)
 //@   ensures [C05] validR(readBuf)
 //@   loop 0 invariant [C05] validR(readBuf) && readBuf.buf.i >= p0 && len(st.SBuffer) == length
+//@   loop 0 invariant [C06] !readBuf.rderr
 //@   loop 1 invariant [C05] validR(readBuf) && readBuf.buf.i >= p0 && st.Status != nil
+//@   loop 1 invariant [C06] !readBuf.rderr
 //@   loop 2 invariant [C05] validR(readBuf) && readBuf.buf.i >= p0 && st.Context != nil
-// tag skeleton of the reader (derived from RequestF.tars by tools/gencontracts.py: reader_skeleton)
+//@   loop 2 invariant [C06] !readBuf.rderr
+// tag skeleton of the reader and error propagation (derived from RequestF.tars by tools/gencontracts.py: reader_skeleton)
+//@   site ResetDefault#0 ghost readBuf.rderr = false
+//@   site ).Read#0 ghostafter readBuf.rderr = readBuf.rderr || $ret != nil
+//@   site ).Read#1 ghostafter readBuf.rderr = readBuf.rderr || $ret != nil
+//@   site ).Read#2 ghostafter readBuf.rderr = readBuf.rderr || $ret != nil
+//@   site ).Read#3 ghostafter readBuf.rderr = readBuf.rderr || $ret != nil
+//@   site ).Read#4 ghostafter readBuf.rderr = readBuf.rderr || $ret != nil
+//@   site ).Read#5 ghostafter readBuf.rderr = readBuf.rderr || $ret != nil
+//@   site ).Read#6 ghostafter readBuf.rderr = readBuf.rderr || $ret != nil
+//@   site ).Read#7 ghostafter readBuf.rderr = readBuf.rderr || $ret != nil
+//@   site ).Read#8 ghostafter readBuf.rderr = readBuf.rderr || $ret != nil
+//@   site ).Read#9 ghostafter readBuf.rderr = readBuf.rderr || $ret != nil
+//@   site ).Read#10 ghostafter readBuf.rderr = readBuf.rderr || $ret != nil
+//@   site ).Read#11 ghostafter readBuf.rderr = readBuf.rderr || $ret != nil
+//@   site ).Read#12 ghostafter readBuf.rderr = readBuf.rderr || $ret != nil
+//@   site ).Read#13 ghostafter readBuf.rderr = readBuf.rderr || $ret != nil
+//@   site ).Read#14 ghostafter readBuf.rderr = readBuf.rderr || $ret != nil
+//@   site ).Read#15 ghostafter readBuf.rderr = readBuf.rderr || $ret != nil
+//@   site ).Skip#0 ghostafter readBuf.rderr = readBuf.rderr || $ret2 != nil
+//@   site ).Skip#1 ghostafter readBuf.rderr = readBuf.rderr || $ret1 != nil
+//@   site ).Skip#2 ghostafter readBuf.rderr = readBuf.rderr || $ret1 != nil
+//@   site ).Skip#3 ghostafter readBuf.rderr = readBuf.rderr || $ret1 != nil
+//@   ensures [C06] readBuf.rderr ==> err != nil
 //@   site ).Read#0 assert [C04] $2 == 1 && $3 == true
 //@   site ).Read#1 assert [C04] $2 == 2 && $3 == true
 //@   site ).Read#2 assert [C04] $2 == 3 && $3 == true
@@ -149,9 +201,10 @@ package requestf
 //@   requires st != nil && validR(readBuf)
 //@   let p0 = readBuf.buf.i
 //@   let allocbudget = len(readBuf.buf.src)
-//@   modifies *st, readBuf.buf.i, readBuf.depth
+//@   modifies *st, readBuf.rderr, readBuf.buf.i, readBuf.depth
 //@   allocates
-//@   ensures readBuf.buf.i >= p0
+//@   ensures [C05] readBuf.buf.i >= p0
+//@   ensures [C06] (readBuf.rderr && !old(readBuf.rderr)) ==> result != nil
 //@   safety [C05]
 //
 // ------------------------------------------------------------------ encoders (property C03)
